@@ -162,7 +162,7 @@ pub fn check_spend(rng: &mut Rng, acc: &mut Acc) -> Vec<String> {
     let d = rng.pick(&["uosmo", "ibc/27394FB092D2ECCD56123C74F36E4C1F926001CEADA9CA97EA622B25F41E5EB2"]).to_string();
     let amount = 1 + rng.below128(1_000_000_000_000);
     w.mint_raw(&t, &d, amount.saturating_mul(2));
-    let receivers = [
+    let receivers = vec![
         (addr20("osmo", "recv"), "osmo"),
         (addr32("osmo", "recvc"), "osmo"),
         (addr20("celestia", "recv"), "celestia"),
@@ -171,6 +171,10 @@ pub fn check_spend(rng: &mut Rng, acc: &mut Acc) -> Vec<String> {
         ("osmo1invalid".to_string(), "junk"),
         (String::new(), "empty"),
         (prim::bech32_encode_v("osmo", &[7u8; 20], prim::Variant::Bech32m), "bech32m"),
+        (addr20("osmovaloper", "recv"), "osmo-extended-prefix"),
+        (addr20("celestiavaloper", "recv"), "celestia-extended-prefix"),
+        (addr20("osm", "recv"), "osmo-shortened-prefix"),
+        (addr20("celestia1", "recv"), "celestia-with-digit"),
     ];
     let (recv, class) = rng.pick(&receivers).clone();
     let ibc = rng.chance(1, 2);
@@ -287,9 +291,13 @@ pub fn run(a: &Args, acc: &mut Acc) {
                     denom(&mut rng)
                 } else if endpoint_ok {
                     if exact_in { cand[0].1.clone() } else { cand[cand.len() - 1].2.clone() }
-                } else if rng.chance(1, 2) {
+                } else if rng.chance(1, 3) {
                     // the *other* end of the route
                     if exact_in { cand[cand.len() - 1].2.clone() } else { cand[0].1.clone() }
+                } else if rng.chance(1, 2) {
+                    // a denom that appears in the middle of the route
+                    let i = rng.below(cand.len() as u64) as usize;
+                    if exact_in { cand[i].2.clone() } else { cand[i].1.clone() }
                 } else {
                     denom(&mut rng)
                 };
